@@ -89,7 +89,11 @@ F_SELF = (
     '<p metal:define-macro="b">B-${name}</p>'
     '<div metal:use-macro="template.macros[\'a\']"><i metal:fill-slot="x">${y()}fx-${name}</i></div></div>')
 F_XPAGE = ('<div><span metal:use-macro="load: part.pt">x</span>${name}</div>')
-FILES = {"lib.pt": F_LIB, "page.pt": F_PAGE, "main.pt": F_MAIN,
+F_I18N = (
+    '<div i18n:domain="d"><p i18n:translate="">Hi <b i18n:name="who">${name}</b> and '
+    '<i i18n:name="n">${len(items)}</i>${y()} more</p><span tal:content="name">x</span>'
+    '<p tal:on-error="string:e">${items[0]}</p></div>')
+FILES = {"i18n.pt": F_I18N, "lib.pt": F_LIB, "page.pt": F_PAGE, "main.pt": F_MAIN,
          "self.pt": F_SELF,
          "x/page.pt": F_XPAGE, "x/part.pt": '<span>part-x ${name}${y()}</span>',
          "y/page.pt": F_XPAGE, "y/part.pt": '<span>part-y ${name}${y()}</span>'}
@@ -150,6 +154,8 @@ class C14(CheckBase):
     def gen(self, ch: Choices, tier: str) -> dict:
         if ch.coin(0.08):
             return self.gen_xproc(ch, tier)
+        if ch.coin(0.15):
+            return self.gen_compilerace(ch, tier)
         if ch.coin(0.4):
             return self.gen_lazyrace(ch, tier)
         kind = ch.weighted([(3, "string"), (4, "file"), (4, "loader"),
@@ -196,6 +202,25 @@ class C14(CheckBase):
         sched = self._gen_sched(ch, ntasks)
         return {"shared": shared, "tasks": tasks, "sched": sched,
                 "coarse": ch.coin(0.25), "observer": ch.coin(0.5)}
+
+    def gen_compilerace(self, ch: Choices, tier: str) -> dict:
+        """Two or three threads whose first use compiles file templates at
+        the same time; every function entry of the compile-side modules is
+        a yield point and the change points favour code-generation steps."""
+        names = ch.sample(["i18n.pt", "self.pt", "lib.pt", "main.pt",
+                           "page.pt"], 1 + ch.choose(2))
+        if "i18n.pt" not in names and ch.coin(0.85):
+            names[0] = "i18n.pt"
+        shared = [{"kind": "file", "name": n} for n in names]
+        tasks = [[["render", t % len(shared), t + 1]]
+                 for t in range(2 if ch.coin(0.6) else 3)]
+        d = 1 + ch.choose(3)
+        return {"shared": shared, "tasks": tasks, "coarse": True,
+                "focus": True, "observer": False,
+                "sched": {"kind": "pct",
+                          "prios": ch.shuffle(list(range(1, len(tasks) + 1))),
+                          "fracs": [[ch.choose(100000) / 100000.0,
+                                     ch.coin(0.7)] for _ in range(d)]}}
 
     def gen_lazyrace(self, ch: Choices, tier: str) -> dict:
         """The first, lazily compiling use of one shared file template (or
